@@ -10,6 +10,9 @@ writes a dependency (assignment / del / item store / mutating call on it or on i
 directly or through a callee) to an exit, a refresh of the cache follows (del / reset /
 re-assignment / call of a method that always refreshes).  Decided by a may-dirty abstract walk
 over the structured statements with per-(method, cache, constant bool flags) summaries.
+
+CACHE-CURRENT: where a mutator refreshes an eager cache by assigning it anew, no value read from a dependency
+*before* the mutator wrote that dependency (kept in a local) may flow into the assignment.
 """
 import ast
 
